@@ -20,11 +20,16 @@ import (
 	_ "net/http"
 
 	"github.com/tencent/goom/internal/unexports2"
+	acopy "github.com/tencent/goom/zzverif/c10/a/github.com/tencent/goom/zzverif/c10/vars"
+	tpcopy "github.com/tencent/goom/zzverif/c10/third_party/github.com/tencent/goom/zzverif/c10/vars"
 	"github.com/tencent/goom/zzverif/c10/vars"
 	"github.com/tencent/goom/zzverif/vmon"
 )
 
 const varPkg = "github.com/tencent/goom/zzverif/c10/vars"
+
+// the copies are linked in (their variables exist in the binary under the same names behind a longer path)
+var CopiesLinked = len(acopy.Addrs) + len(tpcopy.Addrs)
 
 var entriesOf = map[string][]uintptr{}
 
